@@ -5,7 +5,9 @@
 package syms
 
 import (
+	"bytes"
 	"encoding/base64"
+	"encoding/json"
 	"fmt"
 	"strings"
 
@@ -482,6 +484,31 @@ func Alphabet(sigTypes []string, suffix string) []Sym {
 	{
 		t := int64(b.anchor().Time)
 		mkDeact("window-early", e, ops.Window{From: t + 1}, nil)
+	}
+	// anchored requests as an operation store may keep them: the same JSON value written with so much insignificant white space
+	// that the text is longer than MaxOperationSize (the applier reads anchored operations in batch mode, where only the client
+	// request was size-limited); same keys, anchoring tuple and expectation as the plain symbol
+	first := "Ed25519"
+	if len(sigTypes) > 0 {
+		first = sigTypes[0]
+	}
+	for _, plain := range []string{"create/valid-keys-services", "update/valid-add-key/" + first, "recover/valid/" + first, "deactivate/valid/" + first} {
+		for _, sy := range b.out {
+			if sy.Name != plain {
+				continue
+			}
+			var padded bytes.Buffer
+			for width := 300; padded.Len() <= int(Proto().MaxOperationSize); width *= 2 {
+				padded.Reset()
+				if err := json.Indent(&padded, sy.Op.OperationRequest, "", strings.Repeat(" ", width)); err != nil {
+					panic(fmt.Sprintf("syms: padded form of %s: %v", plain, err))
+				}
+			}
+			op := *sy.Op
+			op.OperationRequest = append(padded.Bytes(), '\n', ' ')
+			b.out = append(b.out, Sym{Name: "padded+" + sy.Name, Key: sy.Key, Desc: sy.Desc, Op: &op})
+			break
+		}
 	}
 	return b.out
 }
